@@ -43,14 +43,69 @@ fn now_ms() -> u64 {
     EPOCH.get_or_init(Instant::now).elapsed().as_millis() as u64 + 1
 }
 
-pub fn start_watchdog(limit_s: u64) {
+/// CPU time (user + system) of this process, in seconds, from /proc/self/stat.
+/// Allocation-free: the monitor's own sampling must not count as a step of the case.
+fn cpu_seconds(f: &mut std::fs::File) -> Option<f64> {
+    use std::io::{Read, Seek, SeekFrom};
+    let mut buf = [0u8; 1024];
+    f.seek(SeekFrom::Start(0)).ok()?;
+    let n = f.read(&mut buf).ok()?;
+    let s = &buf[..n];
+    let close = s.iter().rposition(|&b| b == b')')?;
+    // after the command name: state is field 0, utime field 11, stime field 12
+    let mut it = s[close + 1..].split(|&b| b == b' ').filter(|w| !w.is_empty());
+    let num = |w: &[u8]| -> Option<f64> {
+        let mut v = 0u64;
+        for &c in w {
+            if !c.is_ascii_digit() {
+                return None;
+            }
+            v = v * 10 + u64::from(c - b'0');
+        }
+        Some(v as f64)
+    };
+    let ut = num(it.nth(11)?)?;
+    let st = num(it.next()?)?;
+    Some((ut + st) / 100.0)
+}
+
+/// Two monitors on the running case, from a side thread:
+/// * wall-clock watchdog: exit code 3 (inconclusive, never a violation);
+/// * progress monitor: the case has burnt `spin_cpu_s` seconds of CPU time during which not one
+///   observable step happened (no allocator call, no read / seek / write on any source or sink
+///   of the harness) - a loop that makes no progress. Decided on CPU time and logical events,
+///   not on the wall clock, so machine load cannot produce it. Exit code 4: the orchestrator
+///   records the journalled case as "spin-no-progress" and resumes after it.
+pub fn start_watchdog(limit_s: u64, spin_cpu_s: u64) {
     let _ = now_ms();
-    std::thread::spawn(move || loop {
-        std::thread::sleep(std::time::Duration::from_millis(500));
-        let st = CASE_START_MS.load(std::sync::atomic::Ordering::Relaxed);
-        if st != 0 && now_ms().saturating_sub(st) > limit_s * 1000 {
-            println!("{}", json!({"k": "inconc", "what": "watchdog", "detail": {"limit_s": limit_s}}));
-            std::process::exit(3);
+    std::thread::spawn(move || {
+        crate::alloc::IS_MONITOR.with(|m| m.set(true));
+        let mut stat = std::fs::File::open("/proc/self/stat").ok();
+        let mut last_events = u64::MAX;
+        let mut cpu_at_change = 0.0_f64;
+        let mut last_start = 0u64;
+        loop {
+            std::thread::sleep(std::time::Duration::from_millis(500));
+            let st = CASE_START_MS.load(std::sync::atomic::Ordering::Relaxed);
+            if st == 0 {
+                last_events = u64::MAX;
+                continue;
+            }
+            if now_ms().saturating_sub(st) > limit_s * 1000 {
+                println!("{}", json!({"k": "inconc", "what": "watchdog", "detail": {"limit_s": limit_s}}));
+                std::process::exit(3);
+            }
+            let ev = crate::alloc::EVENTS.load(std::sync::atomic::Ordering::Relaxed);
+            let cpu = stat.as_mut().and_then(cpu_seconds);
+            let Some(cpu) = cpu else { continue };
+            if ev != last_events || st != last_start {
+                last_events = ev;
+                last_start = st;
+                cpu_at_change = cpu;
+            } else if cpu - cpu_at_change >= spin_cpu_s as f64 {
+                println!("{}", json!({"k": "note", "what": "spin-no-progress", "detail": {"cpu_s_without_event": cpu - cpu_at_change, "events": ev}}));
+                std::process::exit(4);
+            }
         }
     });
 }
@@ -84,9 +139,15 @@ pub fn guarded<T>(f: impl FnOnce() -> T) -> Result<T, (String, String)> {
     LAST_PANIC.with(|p| *p.borrow_mut() = None);
     match std::panic::catch_unwind(std::panic::AssertUnwindSafe(f)) {
         Ok(v) => Ok(v),
-        Err(_) => Err(LAST_PANIC
-            .with(|p| p.borrow_mut().take())
-            .unwrap_or(("?".into(), "?".into()))),
+        Err(_) => {
+            let (loc, msg) = LAST_PANIC.with(|p| p.borrow_mut().take()).unwrap_or(("?".into(), "?".into()));
+            if msg.starts_with("HARNESS-STEP-BOUND") {
+                // not a crash of the code under test: the harness's logical-step bound unwound a loop that does not end
+                Err(("loops-without-bound".into(), msg))
+            } else {
+                Err((loc, msg))
+            }
+        }
     }
 }
 
